@@ -11,7 +11,7 @@ R  TLC's state graph is dumped; walks covering every transition are replayed as 
    SortedSetAbs."""
 import os, time
 from .. import tlc, graphwalk
-from ..common import SPEC, NCPU, log, seed
+from ..common import SPEC, NCPU, log
 from . import c25
 
 QUICK = ["empty", "A", "Adup", "B", "Bh", "E", "C", "D"]
@@ -45,7 +45,9 @@ def consts(cfg):
 def check_one(wd, name, dump):
     cfg = "MC_BTreeConc_%s.cfg" % name
     dot = os.path.join(wd, "conc_%s.dot" % name)
-    extra = ["-coverage", "1"] + (["-dump", "dot,actionlabels", dot] if dump else [])
+    # (no -coverage: TLC's expression profiling makes the recursive tree operators ~10x slower; the actions taken are
+    # read off the dumped graph's edge labels instead)
+    extra = ["-dump", "dot,actionlabels", dot] if dump else []
     r = tlc.run_tlc(os.path.join(SPEC, "MC_BTreeConc.tla"), os.path.join(SPEC, cfg), os.path.join(wd, "conc_" + name), timeout=2700,
                     workers=4 if dump else min(12, NCPU), extra=extra, heap="12g")
     return name, r, dot
@@ -86,11 +88,10 @@ def run(res, wd, drv, tier):
             res.infra_errors.append("BTreeConc %s: %s" % (name, str(r["error"])[-600:])); continue
         res.add_tlc(r)
         res.cov.setdefault("btreeconc_configs", []).append({"config": name, "states": r["distinct"], "transitions": r["generated"], "depth": r["depth"]})
-        cov = tlc.coverage_counts(r["out"])
-        taken |= {a for a in ACTIONS if a in cov and cov[a][0] > 0}
         if name in NOREPLAY:
             continue
         g = graphwalk.Graph(dot)
+        taken |= {e[2] for e in g.edges}
         c = consts("MC_BTreeConc_%s.cfg" % name)
         walks = g.covering_walks(max_len=400)
         for init_id, w in walks:
@@ -163,9 +164,17 @@ def eval_defs(wd, names):
     mod, cfg = write_mc(d, "MCD_BTreeConc", "MC_BTreeConc, TLC", body, open(os.path.join(SPEC, "MC_BTreeConc_empty.cfg")).read())
     r = tlc.run_tlc(mod, cfg, d, timeout=600, workers=1)
     out = {}
-    text = re.sub(r"\s+", " ", r["out"])
-    for m in re.finditer(r'<<"DEF", "(\w+)", (.*?)>> (?=<<"DEF"|Starting|Computing|TRUE)', text):
-        v = tlaval.parse(m.group(2))
+    text = r["out"]
+    for m in re.finditer(r'<<"DEF", "(\w+)", ', text):
+        depth = 1; i = m.end()                     # find the end of the printed tuple by bracket matching
+        while depth and i < len(text):
+            if text.startswith("<<", i):
+                depth += 1; i += 2
+            elif text.startswith(">>", i):
+                depth -= 1; i += 2
+            else:
+                i += 1
+        v = tlaval.parse(text[m.end():i - 2])
         out[m.group(1)] = [v[k] for k in sorted(v)] if isinstance(v, dict) else v
     missing = [n for n in names if n not in out]
     if missing:
